@@ -354,6 +354,8 @@ def compare(ex, op, a, b, st, ctx):
         return r if op == "Eq" else not r
     if isinstance(a, tuple) and isinstance(b, tuple):
         return _cmp_concrete(op, a, b)
+    if getattr(ex, "opaque_nondet", False) and (isinstance(a, (Opaque, BoundMethod)) or isinstance(b, (Opaque, BoundMethod))):
+        return Opaque("cmp")          # comparison involving a value the executor does not model: nondeterministic (see Executor.cond)
     raise Havoc("compare %s %s %s" % (type(a).__name__, op, type(b).__name__))
 
 
@@ -1035,6 +1037,8 @@ def _minmax(is_min):
                     raise Havoc("reduction in lifted function")
                 return v
             if isinstance(v, Opaque):
+                if getattr(ex, "opaque_shapes", False):
+                    return z3.Real(("min_" if is_min else "max_") + v.tag)       # a real reduction of an unmodelled array: some real, the same each time
                 return Opaque("red")
             items = ex.iterate(v, st, ctx)
         else:
@@ -1134,6 +1138,11 @@ def _shape(ex, st, ctx, args, kwargs):
     if isinstance(v, SeqVal):
         return (v.length,)
     if isinstance(v, Opaque):
+        if getattr(ex, "opaque_shapes", False):
+            # an array the executor does not model is given a symbolic 1-d shape (n,), n >= 1, the same whenever it is asked again
+            n = z3.Int("dim_" + v.tag)
+            st.assume(n >= 1)
+            return (n,)
         return Opaque("shape")
     raise Havoc("shape")
 
@@ -1350,7 +1359,7 @@ def _norm(ex, st, ctx, args, kwargs):
     if _scalar(v):
         return _abs(ex, to_z3(v) if not _num(v) else v, ctx)
     if isinstance(v, Opaque):
-        r = z3.Real(fresh_name("norm"))
+        r = z3.Real("norm_" + v.tag)          # one value per opaque object: norm(F) asked twice is the same number
         st.assume(r >= 0)
         return r
     raise Havoc("norm")
